@@ -286,7 +286,9 @@ fn show_dir(d: ParseDirection) -> &'static str {
     }
 }
 fn show_parser(input: &str, p: Parser<'_>) -> String {
-    format!("rem={};off={};dir={}", view_str(input, p.remainder()), p.start_offset(), show_dir(p.parse_direction()))
+    // fl: the parser's split protocol is exhausted (yielded_last_split): a further split fails at once
+    let fl = matches!(p.split('\u{1}'), Err(e) if matches!(e.kind(), konst::parsing::ErrorKind::SplitExhausted));
+    format!("rem={};off={};dir={};fl={}", view_str(input, p.remainder()), p.start_offset(), show_dir(p.parse_direction()), show_bool(fl))
 }
 fn show_br(b: Option<usize>) -> String {
     show_opt(b, |x| x.to_string())
@@ -396,14 +398,16 @@ const TFAMS: [&str; 2] = ["c18.trim_start_matches", "c18.trim_end_matches"];
 
 fn run_input(c: &Case, input: &str, both_states: bool, flip: bool, out: &mut Out) {
     let flat: Vec<&str> = c.lits.iter().flat_map(|a| a.iter().copied()).collect();
-    for st in 0..2 {
-        if !both_states && (st == 1) != flip {
+    for st in 0..3 {
+        if st < 2 && !both_states && (st == 1) != flip {
             continue;
         }
-        let (off, dir) = if st == 0 { (0usize, "S") } else { (5usize, "E") };
+        // state 2 ("X"): a parser whose split protocol is exhausted (everything was yielded by a
+        // split that found no delimiter); the macro must leave that flag alone
+        let (off, dir) = if st == 0 { (0usize, "S") } else if st == 1 { (5usize, "E") } else { (3usize, "X") };
         let mk = || {
             let p = Parser::with_start_offset(input, off);
-            if st == 0 { p } else { p.skip_back(0) }
+            if st == 0 { p } else if st == 1 { p.skip_back(0) } else { p.split('\u{1}').unwrap().1 }
         };
         let tail = format!("{} {} {}", hex(input.as_bytes()), off, dir);
         for k in 0..4 {
